@@ -105,6 +105,8 @@ def harness_line(c):
         t.append(f'ctor={c["ctor"]}')
     if 'wild' in c:
         t.append(f'wildcard={int(c["wild"])}')
+    if c.get('gate'):
+        t.append(f'gate={c["gate"]}')
     if c['presented']:
         pname, with_chain = presented_of(c)
         p = CERTS[pname]
@@ -232,6 +234,14 @@ def grid(full):
                                            ('star-without-permission', '*', False, 'ca2/server'),
                                            ('not-permitted-wrong-name', 'wrong.example', False, 'ca2/server')]:
                 add(dict(cell('fficlient', mn, 'ca', False, dns, 'ca2', 'ca2/client', 'openssl', offer, pres, label), wild=wild))
+    # a level change while the handshake is in flight: the ClientHello (of the peer for the server side, of the client
+    # under test for the client side) is held back by a relay, set_decode_level is called on the ServerHandle / the
+    # Channel under test, then the handshake goes on - the admission result must be the one without the level change
+    gated = [dict(c, gate='level') for c in cells
+             if c['side'] in ('server', 'client') and c['peer'] in ('openssl', 'rodbus') and not c.get('ctor') and c['min'] == '12' and c['offer'] in ('both', '13')
+             and (c['authz'] or c['side'] == 'client')
+             and c['label'] in ('valid', 'valid2', 'role-less', 'other-role', 'two-roles', 'wrong-authority', 'expired', 'wrong-name', 'not-the-configured-cert', 'via-intermediate')]
+    cells += gated
     if full:
         return cells
     # core grid: every version cell with a valid certificate against the independent peer, plus one
@@ -321,7 +331,7 @@ def key_of(c, impl, want):
     got = impl.split(':')[0].lower()
     exp = want.split(':')[0].lower()
     what = f'{got}-expected-{exp}' if got != exp else 'details-differ'
-    return f'tls.{c["side"]}{".deprecated-new" if c.get("ctor") else ""}.min{c["min"]}.{c["mode"]}.{"authz" if c["authz"] else "noauthz"}.{c["label"]}.peer-{c["peer"]}-offers-{c["offer"]}.{what}'
+    return f'tls.{c["side"]}{".deprecated-new" if c.get("ctor") else ""}{".level-change-during-handshake" if c.get("gate") else ""}.min{c["min"]}.{c["mode"]}.{"authz" if c["authz"] else "noauthz"}.{c["label"]}.peer-{c["peer"]}-offers-{c["offer"]}.{what}'
 
 
 def run(ctx):
@@ -397,7 +407,7 @@ def run(ctx):
             continue
         seen.add(cls)
         ctx.violation(key_of(c, i, spec), f'rodbus TLS {SIDE_NAMES.get(c["side"], c["side"])}{" built with the deprecated TlsClientConfig::new" if c.get("ctor") else ""} (min TLS 1.{c["min"][1]}, {"authority" if c["mode"] == "ca" else "self-signed"} mode, '
-                      f'{"with" if c["authz"] else "without"} authorization) against a {c["peer"]} peer offering {c["offer"]} presenting a {c["label"]} certificate: {d} (harness: {i}, Spec: {spec})',
+                      f'{"with" if c["authz"] else "without"} authorization) against a {c["peer"]} peer offering {c["offer"]} presenting a {c["label"]} certificate{", with a decode-level change on the endpoint under test while the handshake is held back by a relay" if c.get("gate") else ""}: {d} (harness: {i}, Spec: {spec})',
                       {'cases': [c], 'impl': i, 'spec': spec, 'harness_line': harness_line(c), 'ground_truth': truth(c)})
     ctx.oblige('correspondence:tls-handshake-grid', n_spec == 0 and n_model == 0, f'{n_model} model / {n_spec} spec mismatches in {len(cells)} cells')
     if not ctx.replay and models_ok:
